@@ -181,7 +181,8 @@ def check(prop, tier, seed):
         broken.append(('translator', tlog.strip()[-400:]))
     coq = common.coq_check_prop(prop)
     if not coq['built']:
-        broken.append(('theorem', f"props/{prop}.v does not compile: {coq.get('first_error', '')}"))
+        warn = "; ".join(l.strip() for l in tlog.splitlines() if l.startswith('TRANSLATOR-WARNING'))
+        broken.append(('theorem', f"props/{prop}.v does not compile: {coq.get('first_error', '')}" + (f" [{warn[:400]}]" if warn else '')))
     for p in coq['problems']:
         broken.append(('development', p))
     if coq['built'] and coq['discharged'] != coq['obligations']:
